@@ -499,7 +499,8 @@ Definition init_state (endt : ptok) (toks : list ptok) : pstate :=
 Record presult : Type := mkPres {
   pr_tree : list (option node);   (* program.Statements *)
   pr_errs : list perr;            (* in order of occurrence *)
-  pr_cont : bool
+  pr_cont : bool;
+  pr_all_lexed : bool             (* every token up to and including the end marker was pulled from the lexer *)
 }.
 
 Inductive poutcome : Type :=
@@ -511,7 +512,7 @@ Inductive poutcome : Type :=
 Definition parse_program (conv : numconv) (fuel : nat) (end_type : Z) (toks : list ptok) : poutcome :=
   let endt := mkPtok (mkTok end_type []) false false in
   match programLoop conv fuel [] (init_state endt toks) with
-  | ROk l s => POk (mkPres l (rev (ps_errs s)) (ps_cont s))
+  | ROk l s => POk (mkPres l (rev (ps_errs s)) (ps_cont s) (match ps_rest s with [] => true | _ => false end))
   | RPanic w => PPanic w
   | RFuel => POutOfFuel
   end.
